@@ -168,6 +168,27 @@ INFO = {
     "C18-f": (["C18"], "caught as written", None),
     "C19-f": (["C19", "C04", "C05"], "missed by C19 at first (C04 and C05 caught it: shared helper)", "C19's generator puts both directives on one node"),
     "C20-f": (["C20"], "caught as written", None),
+    # round 7
+    "C01-g": (["C01"], "missed at first", "reference: a number followed by a digit / letter is a definite REJECT when the two-token reading rejects too (was UNSPEC); mutation `number-spelling` (leading zeros after the sign, glued letters)"),
+    "C02-g": (["C02"], "caught as written", None),
+    "C03-g": (["C03"], "missed at first", "string pools with runs of >= 4 quotes (block bodies `\\\"\"\"\"`, quoted `\\\"` x 4..7)"),
+    "C04-g": (["C04"], "caught as written", None),
+    "C05-g": (["C05", "C06"], "caught as written", None),
+    "C06-g": (["C06", "C13"], "missed at first (the check stopped with a harness error: the change also makes build_schema refuse valid schemas)", "a schema refused by the library is counted NOT-EVALUATED instead of stopping the run (C11/C13 decide it); variables of a stricter type than the position ([Int!]! at [Int]!), mutation toggling non-null inside a variable's type"),
+    "C07-g": (["C07"], "caught as written", None),
+    "C08-g": (["C08"], "missed at first", "harness-owned pools run each task on a thread of its own (not the submitter's / the event loop's)"),
+    "C09-g": (["C09"], "missed at first", "root types too leave fields to the default resolver (methods of the root value), mixed with explicit resolvers"),
+    "C10-g": (["C10", "C04"], "missed at first", "a third of the resolver errors arrive with a path of their own (`ResolverError(..., path=[...])`)"),
+    "C11-g": (["C11"], "caught as written", None),
+    "C12-g": (["C12"], "missed at first", "descriptions with interior lines of blanks only"),
+    "C13-g": (["C13"], "missed at first", "histories with per-type default resolvers and a schema-wide default resolver; model = the executor's order of precedence"),
+    "C14-g": (["C14"], "caught as written", None),
+    "C15-g": (["C15"], "caught as written", None),
+    "C16-g": (["C16"], "caught as written", None),
+    "C17-g": (["C17"], "caught as written", None),
+    "C18-g": (["C18"], "caught as written", None),
+    "C19-g": (["C19"], "caught as written", None),
+    "C20-g": (["C20"], "caught as written", None),
 }
 RAN_C = ("tools/confirm_seed.sh (scratch worktree of /repo HEAD, /repo itself untouched because a background thorough run was using it): "
          "demo.py on the clean tree (exit 0), patch applied, repo test-suite (1895 passed), demo.py with the change (exit 1), "
@@ -175,7 +196,7 @@ RAN_C = ("tools/confirm_seed.sh (scratch worktree of /repo HEAD, /repo itself un
 for sid, (caught, first, strengthening) in sorted(INFO.items()):
     p = os.path.join(HERE, "seeded", sid, "meta.json")
     m = json.load(open(p))
-    m["what_i_ran"] = RAN_C if sid.endswith(("-c", "-d", "-e", "-f")) else RAN
+    m["what_i_ran"] = RAN_C if sid.endswith(("-c", "-d", "-e", "-f", "-g")) else RAN
     m["caught_by_quick_checks"] = caught
     m["first_round"] = first
     if strengthening:
